@@ -32,3 +32,6 @@ add("C12", "address-root classification of callback arguments at every callback 
 add("C16", "flow-sensitive field provenance on locally created schema objects (fresh / capacity-clipped / shared-with-operand), map-write target resolution, CFG-order rules for Merge, key-provenance rules for Pick/Omit/Extend",
     "Decides that derived struct schemas never share an appendable slice backing array or a field map with an operand, never write an operand, combine operands in documented order and select exactly the named keys. Behavioural equivalence with a hand-written schema on all inputs is not decided; level 'other'.",
     "DESIGN.md section 4, C16")
+add("C20", "canonical-formula extraction from each predicate closure's SSA (path-condition DNF, existential loop summaries, exact rune-interval evaluation of comparison DAGs) compared with a table frozen from the documentation and keyed by the issue code the same constructor reports",
+    "Decides, exhaustively over the built-in tests, that each predicate closure computes exactly its documented predicate (operators, operand order, inclusive bounds, Equal vs ==, DeepEqual membership, ASCII classes). The grammars of the e-mail/UUID regular expressions and url.Parse are not decided; level 'other'.",
+    "DESIGN.md section 4, C20")
